@@ -22,7 +22,7 @@ LEVEL_NOTE = ('Trusted: Lean kernel; that RepeatItem.index equals consumed - 1 f
               'outer variable name leaves repeat[name] on the finished inner loop), D-08b (separator = one space per character of the preceding '
               'line: tabs / non-blank text are not reproduced as indentation).')
 RULE = ('component: RepeatItem for all lengths 0..60 x all positions and the boundaries 25/26/27, 675/676/677, 3998..4001, every attribute; '
-        'end-to-end: iterable kinds {list, tuple, range, generator, dict view, str, None} x nesting depth 1..3 (distinct/reused names) x '
+        'end-to-end: iterable kinds {list, tuple, range, generator, dict view, str, None, user-defined sized iterables with a lazy __iter__ (generator / map / zip), unsized iterables, __getitem__ sequences, iterator objects, deque, array} x nesting depth 1..3 (distinct/reused names) x '
         'placement of the repeated element after text with/without newline; expected output computed by an independent reference. '
         'Non-trivial iff length >= 2 and the body reads a repeat variable, or the element follows text containing a newline.')
 TRUSTED = []
@@ -86,7 +86,66 @@ class Gen:
     """one-shot iterator wrapper built in the implementation runner"""
 
 
-KINDS = ['list', 'tuple', 'range', 'generator', 'dictview', 'str', 'none']
+KINDS = ['list', 'tuple', 'range', 'generator', 'dictview', 'str', 'none',
+         # user-defined iterables ("any iterable"): sized with a lazy __iter__, unsized, old-style sequence, iterator object
+         'sized-gen', 'sized-map', 'sized-zip', 'unsized', 'getitem', 'iterobj', 'deque', 'array']
+
+
+class SizedGen:
+    def __init__(self, n):
+        self.n = n
+
+    def __len__(self):
+        return self.n
+
+    def __iter__(self):
+        for i in range(self.n):
+            yield i
+
+
+class SizedMap(SizedGen):
+    def __iter__(self):
+        return map(lambda i: i, range(self.n))
+
+
+class SizedZip(SizedGen):
+    def __iter__(self):
+        return (a for a, _ in zip(range(self.n), range(self.n)))
+
+
+class Unsized:
+    def __init__(self, n):
+        self.n = n
+
+    def __iter__(self):
+        return iter(range(self.n))
+
+
+class GetItem:
+    def __init__(self, n):
+        self.n = n
+
+    def __len__(self):
+        return self.n
+
+    def __getitem__(self, i):
+        if 0 <= i < self.n:
+            return i
+        raise IndexError(i)
+
+
+class IterObj:
+    def __init__(self, n):
+        self.n, self.i = n, 0
+
+    def __iter__(self):
+        return self
+
+    def __next__(self):
+        if self.i >= self.n:
+            raise StopIteration
+        self.i += 1
+        return self.i - 1
 
 
 def build_iterable(kind, n):
@@ -102,6 +161,24 @@ def build_iterable(kind, n):
         return {i: 'v%d' % i for i in range(n)}.keys()
     if kind == 'str':
         return ''.join(chr(48 + i % 10) for i in range(n))
+    if kind == 'sized-gen':
+        return SizedGen(n)
+    if kind == 'sized-map':
+        return SizedMap(n)
+    if kind == 'sized-zip':
+        return SizedZip(n)
+    if kind == 'unsized':
+        return Unsized(n)
+    if kind == 'getitem':
+        return GetItem(n)
+    if kind == 'iterobj':
+        return IterObj(n)
+    if kind == 'deque':
+        import collections
+        return collections.deque(range(n))
+    if kind == 'array':
+        import array
+        return array.array('i', range(n))
     return None
 
 
